@@ -41,7 +41,8 @@ REQUIRED = ('pluribus_lines_compared', 'acpc_viewer_sequences_compared',
             'loops_closed', 'fixed_limit_hands', 'no_limit_hands',
             'allin_hands', 'showdown_hands', 'folded_out_hands',
             'raise_amounts_rendered', 'min_bet_differs_from_big_blind',
-            'hands_with_manual_mucks')
+            'hands_with_manual_mucks', 'post_hand_voluntary_shows',
+            'multi_line_logs_parsed')
 
 
 def render(state, variant, hand_number, players=None):
@@ -192,6 +193,17 @@ def check_case(res, rng):
         return
     s = ctx.state
     res.evaluations += 1
+    if rng.random() < 0.25:
+        # the winner of a pot nobody called turns his cards over afterwards
+        # (a trailing 'pN sm XxYy' line in the history)
+        for i in s.player_indices:
+            if s.statuses[i] and s.hole_cards[i] and all(s.hole_cards[i]) \
+                    and not all(s.hole_card_statuses[i]) and \
+                    s.can_show_or_muck_hole_cards(True, i):
+                s.show_or_muck_hole_cards(True, i)
+                ctx.script.append(['show_or_muck_hole_cards', [True, i]])
+                res.counters['post_hand_voluntary_shows'] += 1
+                break
     if any(type(o).__name__ == 'HoleCardsShowingOrMucking'
            and not o.hole_cards for o in s.operations) and \
             'HOLE_CARDS_SHOWING_OR_MUCKING' not in cfg['autos']:
@@ -322,6 +334,53 @@ def check_case(res, rng):
                 res.violation(f'parse -> render gives {again!r}, not the '
                               f'original line {line!r} || {what}', payload)
                 return
+        if variant == 'NT' and rng.random() < 0.15:
+            # a LOG of several lines parsed in one call: every line must
+            # come out as it does when it is parsed alone
+            lines = [line]
+            for _ in range(rng.randint(1, 2)):
+                cfg2 = dict(cfg, seed=rng.getrandbits(48))
+                pol2 = driver.gen_policy(rng)
+                pol2['partial_show'] = False
+                if pol2['deal'] == 'unknown':
+                    pol2['deal'] = 'default'
+                c2 = driver.play_hand(cfg2, pol2, [], PROP)
+                if c2.state is None or c2.state.status or \
+                        'op_exc' in c2.data or 'ctor_exc' in c2.data:
+                    continue
+                try:
+                    lines.append(HandHistory.from_game_state(
+                        game, c2.state, hand=rng.randint(0, 99999)
+                    ).to_pluribus_protocol())
+                except Exception:    # noqa: BLE001
+                    continue
+            if len(lines) > 1:
+                res.counters['multi_line_logs_parsed'] += 1
+                try:
+                    joint = list(HandHistory.from_acpc_protocol(
+                        game, stack, '\n'.join(lines), error_status=True))
+                    single = [list(HandHistory.from_acpc_protocol(
+                        game, stack, ln, error_status=True))[0]
+                        for ln in lines]
+                except Exception as exc:   # noqa: BLE001
+                    res.violation(
+                        f'a log of {len(lines)} lines could not be parsed '
+                        f'({type(exc).__name__}: {exc}) although each line '
+                        f'parses alone: {lines} || {what}', payload)
+                    return
+                if len(joint) != len(single) or any(
+                        a.actions != b.actions
+                        or list(a.starting_stacks) != list(b.starting_stacks)
+                        for a, b in zip(joint, single)):
+                    k = next((i for i, (a, b) in enumerate(zip(joint, single))
+                              if a.actions != b.actions), len(joint))
+                    res.violation(
+                        f'line #{k} of a {len(lines)}-line log parses to '
+                        f'{joint[k].actions if k < len(joint) else None}, '
+                        f'alone it parses to '
+                        f'{single[k].actions if k < len(single) else None}: '
+                        f'{lines} || {what}', payload)
+                    return
     if 'r' in actions and '/' in actions:
         shape = ''.join(c for c in actions if not c.isdigit())
         res.sigs.add(sig(variant, cfg['n'], shape))
